@@ -424,7 +424,8 @@ pub fn gen_exhaustive(emit: &mut dyn FnMut(Value), max_k: usize) {
 
 fn gen(args: &Args, emit: &mut dyn FnMut(Value)) {
     let mut rng = Prng::new(args.seed);
-    let class_paren = args.extra.iter().any(|a| a == "--class-paren");
+    // groups with a parenthesis inside a class (known finding class-paren): always with --class-paren, else in ~4% of the pools
+    let class_paren_all = args.extra.iter().any(|a| a == "--class-paren");
     // scanner cases
     let cp_chars = ['(', ')', '\\', 'a', 'b', '[', ']', '日'];
     for _ in 0..(args.n / 4).max(20) {
@@ -446,6 +447,7 @@ fn gen(args: &Args, emit: &mut dyn FnMut(Value)) {
         gen_exhaustive(emit, 4);
     }
     for i in 0..args.n {
+        let class_paren = class_paren_all || rng.chance(1, 25);
         let pool = pattern_pool(&mut rng, class_paren);
         let unique = rng.chance(1, 4);
         let ic = rng.chance(1, 3);
